@@ -342,7 +342,7 @@ def showOptF (q : Option Float) : String := match q with | some v => showF v | n
 
 /-- `c14.hist kind cells points op|op|…` (`R` = read all cells, `Ui:x,y,z` = `grid.update(i, (x,y,z))`,
     `Wp;p;…` = `grid.points[:] = …`) →
-    per step: the cell values `a;b;…` of a read, or `J<value>` returned by the update -/
+    per step: the cell values `a:cond;b:cond;…` of a read, or `J<value>:cond` returned by the update -/
 def handleHist (args : List String) : Option String :=
   match args with
   | [k, cells, pts, ops] => do
@@ -353,11 +353,18 @@ def handleHist (args : List String) : Option String :=
       let g : C15.Grid := ⟨kind, cells, p.length⟩
       if !C15.wellFormed g then some "reject" else
       if ops.any (fun op => match op with | .setAll q => q.length != p.length | _ => false) then some "reject" else
+      let quad := kind.corners == 4
+      -- every value is followed by the conditioning of its float evaluation (see `cond`), for the harness' tolerance
+      let condOf := fun (q : List V3) (ci : Nat) => cond (sigOfCell g q ci).norm
       let r := ops.foldl (fun (acc : List V3 × List String) op =>
         let p' := stepPts acc.1 op
         match op with
-        | .read => (p', acc.2 ++ [";".intercalate ((cellQualities g p').map showOptF)])
-        | .update i _ => (p', acc.2 ++ ["J" ++ showOptF (junctionQuality g p' i)])
+        | .read => (p', acc.2 ++ [";".intercalate ((List.range cells.length).map (fun ci =>
+            showOptF (quality quad (sigOfCell g p' ci)) ++ ":" ++ showF (condOf p' ci)))])
+        | .update i _ =>
+            let cs := (List.range cells.length).filter (fun ci => (cells.getD ci []).contains i)
+            let c := cs.foldl (fun m ci => let x := condOf p' ci; if x < m then x else m) 1.0
+            (p', acc.2 ++ ["J" ++ showOptF (junctionQuality g p' i) ++ ":" ++ showF c])
         | .setAll _ => (p', acc.2 ++ ["W"])) (p, [])
       some ("|".intercalate r.2)
   | _ => none
